@@ -377,6 +377,22 @@ def step (ds : DS) (op impl : String) : DS × StepOut :=
         then ["c09.forward-announced-but-not-delivered"] else [])
       finish (Rpc.step ds.m (.handle a act)) (modelHandlePre ds.o ds.m a act) o'' (ipre.startsWith "handled") (fbad ++ timeoutClause ds.o ipre)
     | _, _ => (ds, { model := "bad-op" })
+  | ["handle", a, act, d] =>
+    -- `handle a act +d`: the handler's action and a clock jump of d in one step
+    match a.toNat?, parseAct? act, (d.drop 1).toNat? with
+    | some a, some act, some d =>
+      let o' := applyHandled ds.o a ipre act
+      let o' := { o' with now := o'.now + d }
+      let (o'', fbad) := match words ipre with
+        | ["fwd", v] =>
+          match v.toNat? with
+          | some v =>
+            if o'.expectFwd.contains (a, v) then ({ o' with expectFwd := o'.expectFwd.erase (a, v) }, [])
+            else (o', ["c09.forward-duplicated-or-unannounced"])
+          | none => (o', [])
+        | _ => (o', [])
+      finish (Rpc.step ds.m (.handleAt a act d)) (modelHandlePre ds.o ds.m a act) o'' true (fbad ++ timeoutClause ds.o ipre)
+    | _, _, _ => (ds, { model := "bad-op" })
   | ["later", p, "probe"] =>
     -- `RpcReplyPort::is_closed` of a port somebody still holds: closed iff its caller has gone
     -- (timed out, or its multi_call bailed out); nothing changes
